@@ -312,6 +312,42 @@ pub fn mon_returned(case: &Case, rec: &Record, j: &Judged) -> Option<Violation> 
     let oversize = matches!(&a.verdict, Verdict::DontCare { why, .. } if why.contains("too long"));
     let fold_known = a.cpath.is_some() && (oversize || !matches!(&a.verdict, Verdict::DontCare { stage: Stage::Query, .. }));
     if !fold_known {
+        // The model does not say whether this body folds (an unusual charset label, an upper-case media type …). Whatever
+        // the library decided, C15 still binds the result: either the request comes back untouched, or — folded — the
+        // body is empty and the returned query carries every URL parameter plus as many further parameters as the body
+        // had non-empty '&'-segments (their decoded values depend on the charset and are not judged here).
+        if o.body == case.wire.body {
+            if !case.wire.body.is_empty() && o.parts.uri != sub.uri {
+                return bad("uri-silent-fold", format!("body returned untouched but URI {:?} returned as {:?}", sub.uri, o.parts.uri));
+            }
+            return None;
+        }
+        if !o.body.is_empty() {
+            return bad("body-silent-fold", format!("body of {} bytes returned as a different body of {} bytes", case.wire.body.len(), o.body.len()));
+        }
+        let rq = o.parts.uri.split_once('?').map(|x| x.1.to_string()).unwrap_or_default();
+        let Ok(got) = rm::parse_query(rq.as_bytes()) else {
+            return bad("folded-query", format!("returned query {:?} is malformed", rq));
+        };
+        let url_pairs = a.url_pairs.clone().unwrap_or_default();
+        let keep = |p: &rm::Pairs| -> Vec<(Vec<u8>, Vec<u8>)> { p.iter().filter(|(n, _)| n != rm::X_AMZ_SIGNATURE).cloned().collect() };
+        let mut rest = keep(&got);
+        for up in keep(&url_pairs) {
+            match rest.iter().position(|g| *g == up) {
+                Some(i) => {
+                    rest.remove(i);
+                }
+                None => return bad("folded-query", format!("URL parameter {:?} is missing from the returned query {:?}", crate::json::show_bytes(&up.0), rq)),
+            }
+        }
+        // (names are percent-decoded byte-wise, which no charset changes for ASCII names such as X-Amz-Signature)
+        let Ok(body_pairs) = rm::parse_query(&case.wire.body) else {
+            return None;
+        };
+        let body_segments = keep(&body_pairs).len();
+        if rest.len() != body_segments {
+            return bad("folded-query", format!("body had {} parameters, the returned query carries {} beyond the URL's: {:?}", body_segments, rest.len(), rq));
+        }
         return None;
     }
     if !a.folded {
